@@ -1097,7 +1097,8 @@ func (n *network) startAcceptor(a gen.AcceptorOptions) (*acceptor, error) {
 		max_message_size: a.MaxMessageSize,
 		atom_mapping:     make(map[gen.Atom]gen.Atom),
 	}
-	if a.Cookie == "" {
+	acceptor.cookie = a.Cookie
+	if acceptor.cookie == "" {
 		acceptor.cookie = n.cookie
 	}
 	for k, v := range a.AtomMapping {
@@ -1176,6 +1177,8 @@ func (n *network) accept(a *acceptor) {
 			n.node.Log().Trace("accepted new TCP-connection from %s", c.RemoteAddr().String())
 		}
 
+		// the acceptor's own cookie (it can be changed with SetCookie), otherwise the node's
+		hopts.Cookie = a.cookie
 		if hopts.Cookie == "" {
 			hopts.Cookie = n.cookie
 		}
